@@ -42,8 +42,19 @@ pub fn build(code: u8, a: &[&str]) -> PathAttribute {
         5 => LocalPref(a[0].parse().unwrap()).into(),
         6 => AtomicAggregate.into(),
         7 => AggregatorInfo::new(Asn::from_u32(a[0].parse().unwrap()), Ipv4Addr::from(a[1].parse::<u32>().unwrap())).into(),
-        8 => { let raw: Vec<u8> = u32s(a[0]).iter().flat_map(|x| x.to_be_bytes()).collect();
-               StandardCommunitiesList::parse(&mut Parser::from_ref(&raw), ppi).unwrap().into() }
+        8 => {
+            // the public way to make a COMMUNITIES value: UpdateBuilder::add_community, one at a time (its bookkeeping - length so
+            // far, extended-length flag - is part of the typed value that a decoded attribute has to equal)
+            let vals = u32s(a[0]);
+            if vals.is_empty() {
+                let raw: Vec<u8> = vec![];
+                StandardCommunitiesList::parse(&mut Parser::from_ref(&raw), ppi).unwrap().into()
+            } else {
+                let mut b = routecore::bgp::message::update_builder::UpdateBuilder::<Vec<u8>, routecore::bgp::nlri::afisafi::Ipv4UnicastNlri>::new_vec();
+                for v in vals { b.add_community(v.into()).unwrap(); }
+                b.attributes().get::<StandardCommunitiesList>().unwrap().into()
+            }
+        }
         9 => OriginatorId(Ipv4Addr::from(a[0].parse::<u32>().unwrap())).into(),
         10 => { let raw: Vec<u8> = u32s(a[0]).iter().flat_map(|x| x.to_be_bytes()).collect();
                 ClusterIds::parse(&mut Parser::from_ref(&raw), ppi).unwrap().into() }
